@@ -36,7 +36,7 @@ def tier_timeout(tier):
     v = os.environ.get("VERIF_HARNESS_TIMEOUT")
     if v:
         return int(v)
-    return 600 if tier == "quick" else 2400
+    return 600 if tier == "quick" else 3600
 
 
 def select(prop, tier, only=None):
